@@ -43,6 +43,8 @@ def main():
         shutil.copy("/repo/src/pydrobert/speech/_version.py", d + "/repo/src/pydrobert/speech/_version.py")
         sh("cd %s/repo && git update-index --assume-unchanged src/pydrobert/speech/_version.py" % d)
         mine = names[k::w]
+        if not mine:
+            continue
         env = dict(os.environ, VERIF_REPO=d + "/repo", SEED_RESULTS=d + "/results.json")
         log = open(d + "/log", "w")
         procs.append((k, mine, subprocess.Popen(["/venv/bin/python", d + "/verif/tools/seed_matrix.py", d + "/verif/seeded"] + mine,
